@@ -61,6 +61,23 @@ class Lam:
         self.node, self.env = node, env
 
 
+class Ord:
+    """component `idx` of operand `side` of a comparison-only computation: it can only be compared with
+    the same component of the other operand, with the outcome fixed by PEval.ordering[idx]"""
+    __slots__ = ('idx', 'side')
+
+    def __init__(self, idx, side):
+        self.idx, self.side = idx, side
+
+
+class Vec:
+    """an object whose components are Ord values (fields by name, at(i) by index)"""
+    __slots__ = ('side', 'fields')
+
+    def __init__(self, side, fields):
+        self.side, self.fields = side, fields
+
+
 class Ref:
     """reference to a variable slot of an outer frame (by-reference parameter / capture)"""
     __slots__ = ('env', 'key')
@@ -164,6 +181,7 @@ def c_printf(fmt, args):
 
 class PEval:
     def __init__(self, units, max_depth=6, max_iter=4096):
+        self.ordering = {}
         self.units = units if isinstance(units, (list, tuple)) else [units]
         self.max_depth = max_depth
         self.max_iter = max_iter
@@ -355,6 +373,8 @@ class PEval:
                     return self.wrap(x, t) if isinstance(x, int) else x
                 if isinstance(v, Ref):
                     return self.lookup(v.env, v.key)
+                if isinstance(v, Vec):
+                    return v
                 if isinstance(v, tuple) and v and v[0] == 'iter':
                     return self.wrap(v[1].b[v[2]], t)
                 raise Undecided('dereference of a non-constant pointer')
@@ -411,9 +431,16 @@ class PEval:
                 return self.ev(ks[0], env, depth)
             raise Undecided('default argument without an expression in the dump')
         if k == 'CXXThisExpr':
-            return ('this',)
+            try:
+                return self.lookup(env, '__this__')
+            except KeyError:
+                return ('this',)
         if k == 'MemberExpr':
             base = self.ev(kids(n)[0], env, depth) if kids(n) else None
+            if isinstance(base, Vec) and not n.get('name'):
+                return base       # anonymous struct / union member: same object
+            if isinstance(base, Vec) and n.get('name') in base.fields:
+                return Ord(base.fields.index(n.get('name')), base.side)
             raise Undecided('member access %s' % n.get('name'))
         if k in ('CallExpr', 'CXXMemberCallExpr', 'CXXOperatorCallExpr'):
             return self.call(n, env, depth)
@@ -542,6 +569,15 @@ class PEval:
         if isinstance(a, tuple) and isinstance(b, tuple) and a and b and a[0] == 'iter' and b[0] == 'iter':
             if op in ('==', '!='):
                 return 1 if ((a[2] == b[2]) == (op == '==')) else 0
+        if isinstance(a, Ord) or isinstance(b, Ord):
+            if isinstance(a, Ord) and isinstance(b, Ord) and a.idx == b.idx and a.side != b.side and op in ('<', '>', '<=', '>=', '==', '!='):
+                o = self.ordering[a.idx]          # relation of side 'a' to side 'b'
+                if a.side == 'b':
+                    o = {'<': '>', '>': '<', '=': '='}[o]
+                return 1 if {'<': o == '<', '>': o == '>', '<=': o in '<=', '>=': o in '>=', '==': o == '=', '!=': o != '='}[op] else 0
+            if isinstance(a, Ord) and isinstance(b, Ord) and a.idx == b.idx and a.side == b.side and op in ('<', '>', '<=', '>=', '==', '!='):
+                return 1 if op in ('<=', '>=', '==') else 0
+            raise Undecided('a component is used other than in a comparison with the same component of the other operand')
         if isinstance(a, float) or isinstance(b, float):
             if isinstance(a, (int, float)) and isinstance(b, (int, float)):
                 fa, fb = float(a), float(b)
@@ -649,6 +685,27 @@ class PEval:
             objn = member_call_object(n)
             args = call_args(n)
             m = strip(kids(n)[0])
+            if objn is not None:
+                try:
+                    vobj = self.ev(objn, env, depth)
+                except Undecided:
+                    vobj = None
+                if isinstance(vobj, Vec):
+                    if name == 'at' and len(args) == 1:
+                        i_ = self.ev(args[0], env, depth)
+                        if isinstance(i_, int) and 0 <= i_ < len(vobj.fields):
+                            return Ord(i_, vobj.side)
+                        raise Fault('at(%r) is outside the %d components' % (i_, len(vobj.fields)))
+                    d = callee_decl(n, self.units[0])
+                    fd = self.find_body(d) if d else None
+                    if fd is not None and depth < self.max_depth:
+                        frame = self.bind(params_of(fd), args, env, depth)
+                        frame['__this__'] = vobj
+                        try:
+                            self.run([body_of(fd)], frame, depth + 1)
+                        except _Return as r:
+                            return r.v
+                        return None
             if objn is not None and not is_this(objn):
                 obj = self.ev(objn, env, depth)
                 if isinstance(obj, Str):
